@@ -12,7 +12,7 @@ exit 0 = property held on everything explored, 1 = violation, 2 = infrastructure
 import json, os, subprocess, sys, time, shutil
 
 VERIF = os.path.dirname(os.path.dirname(os.path.abspath(__file__)))
-SIM = os.path.join(VERIF, "sim")
+SIM = os.environ.get("VERIF_SIM_DIR") or os.path.join(VERIF, "sim")  # VERIF_SIM_DIR: sensitivity runs against a frozen copy of the simulator while it is being edited
 BIN = os.path.join(VERIF, "bin")
 GO = shutil.which("go1.26.8") or "/opt/veriftools/go1.26.8/bin/go"
 
